@@ -48,7 +48,7 @@ ASSUMPTIONS = [
     "ValueError otherwise)",
 ]
 PROFILE = {
-    "quick": dict(examples=1600, shards=16, budget_s=90),
+    "quick": dict(examples=6000, shards=16, budget_s=90),
     "thorough": dict(examples=50000, shards=16, budget_s=900),
 }
 
